@@ -75,6 +75,8 @@ impl LogicalLineFileFormatter for OptimisingLineFormatter {
             .enumerate()
             .filter(|(_, line)| line.get_parent().is_none() && line.get_line_type() != LLT::Eof)
         {
+            #[cfg(pasfmt_verif)]
+            crate::verif_hooks::yield_point("olf_before_line");
             if let Some(solution) = olf.format_line(line) {
                 olf.reconstruct_solution(&solution, line.1);
             }
